@@ -100,6 +100,14 @@ func (r *Run) Reclass(signature string) {
 	r.Logf("RECLASS %s", signature)
 }
 
+// Signature returns the signature of the recorded violation ("" if none).
+func (r *Run) Signature() string {
+	if r.violation == nil {
+		return ""
+	}
+	return r.violation.Signature
+}
+
 // Failed reports whether a violation has been recorded.
 func (r *Run) Failed() bool { return r.violation != nil }
 
